@@ -9,8 +9,8 @@ import os
 from vlib import BUILD, model_cmd
 
 ID = "C06"
-LEAN_MODULES = ["HgVerif.Props.C06", "HgVerif.Props.C06Den", "HgVerif.Props.C06Run", "HgVerif.Model.Engine", "HgVerif.Model.Extracted", "HgVerif.Props.C01Rank"] + ci.LEAN_MODULES
-THEOREMS = ["HgVerif.Intern.intern_equal_keys_share", "HgVerif.Intern.intern_distinct_keys_differ",
+LEAN_MODULES = ["HgVerif.Props.NestFlowCor", "HgVerif.Props.C06", "HgVerif.Props.C06Den", "HgVerif.Props.C06Run", "HgVerif.Model.Engine", "HgVerif.Model.Extracted", "HgVerif.Props.C01Rank"] + ci.LEAN_MODULES
+THEOREMS = ["HgVerif.NestFlow.nested_run_rank_independent", "HgVerif.Intern.intern_equal_keys_share", "HgVerif.Intern.intern_distinct_keys_differ",
             "HgVerif.Intern.sinks_never_merged", "HgVerif.Intern.identical_sinks_distinct", "HgVerif.Intern.inv_addNode",
             "HgVerif.Intern.addNode_id_lt", "HgVerif.Rank.kahn_free_irrelevant", "HgVerif.Sched.cycle_strictly_increasing",
             "HgVerif.Flow.disc_beh", "HgVerif.Flow.scanFrom_eq_denSeq", "HgVerif.Flow.sol_unique", "HgVerif.Flow.denSeq_sol",
@@ -40,7 +40,8 @@ LEVEL_TEXT = ("Kernel-checked for every key type and declaration list: equal key
               "of graph.cpp: under any two topological ranks the whole simulation run has the same cycle times and ends with the same "
               "state of every node (run_rank_independent; per cycle: same user-code runs, same states, same per-node schedule, same "
               "cached next time). That the runtime's rank pass yields a topological rank is C01; that the compiled runtime is the scan "
-              "model is the correspondence: several statement orders of one generated dataflow are run against each other and the model.")
+              "model is the correspondence: several statement orders of one generated dataflow are run against each other and the model."
+              ' Through nested graphs (Props/NestFlowCor.lean): two nestings of one dataflow with the same partition into levels and ANY per-level topological ranks have the same cycle times, final states and ok flag, equal to the inlined run (nested_run_rank_independent).')
 LEVEL_NOTE = ("Trusted: Lean kernel; engine and interning models tied by correspondence. PARTIAL: the run-level theorem covers flat "
               "dataflows (nested graphs, feedback and reference rebinding are covered by the cross-order runs only); 'equal "
               "declarations MAY share' is not required by the monitors (a split is a model difference, not a violation).")
